@@ -76,6 +76,8 @@ type CResult struct {
 	Deadlock    string     `json:"deadlock,omitempty"`
 	ToolTrouble string     `json:"tool_trouble,omitempty"`
 	Yields      int        `json:"yields"`
+	SyncPoints  int        `json:"sync_points"`
+	SyncYields  int        `json:"sync_yields"`
 	SchedHash   string     `json:"sched_hash"`
 	Switches    int        `json:"switches"`
 	FakeNS      int64      `json:"fake_ns"`
@@ -417,6 +419,7 @@ func (e *Engine) checkCorpus(c *core.Ctx, id string) ([]core.Violation, map[stri
 	calls, reached, notReached := 0, 0, 0
 	statusHist := map[int]int{}
 	distinct := map[string]bool{}
+	syncPoints, syncYields := 0, 0
 	for i := range res {
 		r := &res[i]
 		if r.ToolTrouble != "" {
@@ -429,6 +432,8 @@ func (e *Engine) checkCorpus(c *core.Ctx, id string) ([]core.Violation, map[stri
 		if r.Switches > 0 {
 			distinct[r.SchedHash] = true
 		}
+		syncPoints += r.SyncPoints
+		syncYields += r.SyncYields
 		var ps []problem
 		aloneBy := map[[2]int]*CRecord{}
 		for _, a := range r.Alone {
@@ -488,7 +493,7 @@ func (e *Engine) checkCorpus(c *core.Ctx, id string) ([]core.Violation, map[stri
 	info := map[string]any{
 		"packages": len(e.Corpus), "package_names": names, "skipped": e.CorpusSkipped, "runs": len(scs), "race_runs": len(raceScs), "race_reports": raceReports,
 		"calls": calls, "deliveries_reaching_handler_stage": reached, "deliveries_rejected_before": notReached, "status_histogram": statusHist,
-		"distinct_schedules": len(distinct),
+		"distinct_schedules": len(distinct), "sync_operation_points": syncPoints, "sync_operation_preemptions": syncYields,
 	}
 	return vs, info, nil
 }
